@@ -8,7 +8,8 @@ Contents
   1. conversions between the hand port's `Nat` records and the generated `Int` records
   2. FINITE TEST (not a proof for all inputs): kernel evaluation (`decide +kernel`) of
      `DifflibGen.groupedOpCodes a b n = some (hand port)` for ALL pairs of sequences over a
-     two-letter alphabet up to the lengths stated there
+     two-letter alphabet up to the lengths stated there, and on one 200-line input on which the
+     popularity purge of `chainB` is active (`b2j` and the grouped opcodes)
   3. proved for ALL inputs: generated `min` / `max` are `Int`'s `min` / `max`
   4. proved for ALL inputs: generated `getOpCodes` is the hand port's `opLoop` applied to whatever the
      generated `getMatchingBlocks` returns, hence `= Difflib.getOpCodes a b` GIVEN that the generated
@@ -43,6 +44,23 @@ def allAgree (L : Nat) (ns : List Nat) : Bool :=
 
 /-- FINITE TEST: all 15 × 15 pairs of sequences of length ≤ 3 over two letters, context sizes 3, 0, 1 -/
 theorem finite_agreement_len3 : allAgree 3 [3, 0, 1] = true := by decide +kernel
+
+/-- FINITE TEST: all 31 × 31 pairs of sequences of length ≤ 4 over two letters, context size 3 -/
+theorem finite_agreement_len4 : allAgree 4 [3] = true := by decide +kernel
+
+/-- 200 lines: 100 distinct ones, each followed by the line "x", which is therefore POPULAR
+    (100 occurrences > 200/100 + 1): `chainB` purges it from `b2j` -/
+def bigB : List (List UInt8) := (List.range 100).flatMap (fun i => [[i.toUInt8], [120]])
+def smallA : List (List UInt8) := [[120], [5], [120], [120], [7], [120], [8], [121], [120], [120]]
+
+/-- `b2j` of the generated `NewMatcher(_, b)` against the hand port's `Difflib.b2j`, for the keys `ks` -/
+def b2jAgree (b ks : List (List UInt8)) : Bool :=
+  ks.all fun x => decide (GoDiff.mapGet (NewMatcher [] b).b2j x [] = (Difflib.b2j b x).map (fun (k : Nat) => (k : Int)))
+
+/-- FINITE TEST of the popularity purge: an ordinary line, the popular line, an absent line -/
+theorem finite_b2j_purge : b2jAgree bigB [[50], [120], [121]] = true := by decide +kernel
+/-- FINITE TEST: the popular line on the `b` side (purged), and on the `a` side (`b` short: no purge) -/
+theorem finite_agreement_purge : (agreeOn smallA bigB 3 && agreeOn bigB smallA 3) = true := by decide +kernel
 
 /-! ## 3. min / max -/
 
